@@ -151,9 +151,44 @@ pub fn oracle_step(c: &Case, st: &Step) -> (Vec<String>, &'static str) {
                 ("glyphs.", "") => Some('l'),
                 _ => None,
             };
-            if let (Some(k), true) = (kind, name_valid(&c.name)) {
-                for cl in portable_clauses(r, k) {
-                    fails.push(cl.to_string());
+            if name_valid(&c.name) {
+                match kind {
+                    Some(k) => {
+                        for cl in portable_clauses(r, k) {
+                            fails.push(cl.to_string());
+                        }
+                    }
+                    None => {
+                        // any other affix pair: the clauses that do not speak about '.glif' /
+                        // 'glyphs.', each under the hypotheses of its theorem in Props/C07.v
+                        let (pl, sl) = (c.prefix.len(), c.suffix.len());
+                        if sl <= 255 && r.len() > 255 {
+                            fails.push("length<=255".into());
+                        }
+                        if r.chars().any(|ch| SPEC_ILLEGAL.contains(ch) || (ch as u32) < 0x20 || ch as u32 == 0x7f) {
+                            fails.push("no-illegal-character".into());
+                        }
+                        if sl <= 247 {
+                            let stem = r.split('.').next().unwrap_or("").to_ascii_lowercase();
+                            if SPEC_RESERVED.contains(&stem.as_str()) {
+                                fails.push("not-reserved".into());
+                            }
+                            if pl == 0 && r.starts_with('.') {
+                                fails.push("no-leading-period".into());
+                            }
+                        }
+                        if pl + 5 + sl <= 255 && sl <= 247 {
+                            if r.ends_with('.') || r.ends_with(' ') {
+                                fails.push("no-trailing-period-or-space".into());
+                            }
+                            if r.is_empty() || r == "." || r == ".." || r.contains('/') || r.contains('\\') {
+                                fails.push("single-component".into());
+                            }
+                        }
+                        if !r.ends_with(&c.suffix) || (pl + sl + 2 <= 255 && c.prefix != "con." && !r.starts_with(&c.prefix)) {
+                            fails.push("affixes-kept".into());
+                        }
+                    }
                 }
             }
         }
@@ -293,6 +328,21 @@ fn gen_listed(a: &Args, rng: &mut Rng) -> Vec<Case> {
                     let name: String = std::iter::repeat(f).take(k).chain(t.chars()).collect();
                     cs.push(mk(name, p, s, 1, "clip-boundary"));
                 }
+            }
+        }
+    }
+    // reserved stems followed by a period and a long tail, around the clip boundary: the '_' in
+    // front of the stem must be counted before clipping
+    for w in SPEC_RESERVED {
+        for (p, s) in [("", ".glif"), ("", ""), ("glyphs.", ""), ("hello.", ".glif"), ("", ".x")] {
+            let lens: Vec<usize> = if a.thorough() { (245..=260).collect() } else { vec![245, 249, 250, 251, 254, 255, 256, 260] };
+            for total in lens {
+                // sanitised length of prefix + name = total
+                let tail = total.saturating_sub(p.len() + w.len() + 1);
+                let filler = if (total + w.len()) % 3 == 0 { 'é' } else { 'a' };
+                let k = tail / filler.len_utf8();
+                let name: String = w.chars().chain(".".chars()).chain(std::iter::repeat(filler).take(k)).collect();
+                cs.push(mk(name, p, s, 1, "reserved-clip"));
             }
         }
     }
